@@ -315,10 +315,11 @@ def pda_find_epsilon_path(P: PDA, R: Set[PDAState], f: PDAState) -> Optional[Lis
             path.insert(0, q)
         return path
 
+    # N.B. The search is breadth first, since the number of reachable states may be infinite
     visited: Set[PDAState] = set([r for r in R])
-    todo: Set[PDAState] = set([r for r in R])
+    todo: List[PDAState] = [r for r in R]
     while len(todo) > 0:
-        src = todo.pop()
+        src = todo.pop(0)
         for (p, a, u), Q1 in delta.items():
             if p != src.q or a != epsilon:
                 continue
@@ -326,11 +327,12 @@ def pda_find_epsilon_path(P: PDA, R: Set[PDAState], f: PDAState) -> Optional[Lis
                 if pda_can_pop_push(P, src.stack, u, v):
                     stack1 = pda_pop_push(P, src.stack, u, v)
                     target = PDAState(q, stack1)
-                    backpointers[target] = src
+                    if target not in visited:
+                        backpointers[target] = src
                     if target == f:
                         return make_path(target)
                     if target not in visited:
-                        todo.add(target)
+                        todo.append(target)
                         visited.add(target)
     return None
 
